@@ -80,11 +80,21 @@ def r10a(chk, rid='R10.a'):
     src = m.src
     chk.ob(rid, PROPS, '<module>', 'accessors are generated for every table key via _toDOMname / _toCSSname',
            'CSS2Properties._properties.append(_toDOMname(name))' in ast.unparse(m.tree) and 'CSSname = _toCSSname(DOMname)' in ast.unparse(m.tree), 'generation loop changed', shape=True)
-    # accessors delegate to the name-based API
+    # accessors delegate to the name-based API, with normalising (by evaluation)
+    from sa.absint import Record
+
     dm = chk.repo.mod(DECL)
-    for acc, target in (('_getP', 'self.getPropertyValue(CSSName)'), ('_setP', 'self.setProperty(CSSName, value)'), ('_delP', 'self.removeProperty(CSSName)')):
+    for acc, target, args in (('_getP', 'getPropertyValue', {'CSSName': 'font-style'}), ('_setP', 'setProperty', {'CSSName': 'font-style', 'value': 'italic'}), ('_delP', 'removeProperty', {'CSSName': 'font-style'})):
         fn = dm.get(f'CSSStyleDeclaration.{acc}')
-        chk.ob(rid, DECL, f'CSSStyleDeclaration.{acc}', f'delegates to {target}', target in ast.unparse(fn), 'attribute-style access no longer equals access by name', shape=True)
+        calls = []
+        me = Record(getPropertyValue=lambda name, normalize=True, default='': (calls.append(('getPropertyValue', name, normalize)), 'VALUE')[1],
+                    setProperty=lambda name, value=None, priority='', normalize=True, replace=True: calls.append(('setProperty', name, value, priority, normalize, replace)),
+                    removeProperty=lambda name, normalize=True: calls.append(('removeProperty', name, normalize)))
+        got = Evaluator(fn, module=dm, cls='CSSStyleDeclaration').run(self=me, **args)
+        want = {'_getP': [('getPropertyValue', 'font-style', True)], '_setP': [('setProperty', 'font-style', 'italic', '', True, True)], '_delP': [('removeProperty', 'font-style', True)]}[acc]
+        ok = not isinstance(got, Raised) and calls == want and (acc != '_getP' or got == 'VALUE')
+        chk.ob(rid, DECL, f'CSSStyleDeclaration.{acc}', f'attribute-style access is {target} by normalised name', ok,
+               f'calls {calls}, returns {got!r}: `style.fontStyle` then differs from access by name for an entry written with an escape or in upper case')
 
 
 # ---------------------------------------------------------------------------
